@@ -1,9 +1,11 @@
 package checks
 
 import (
+	"bytes"
 	"encoding/hex"
 	"fmt"
 	"math/rand"
+	"strings"
 	"sync"
 	"sync/atomic"
 	"time"
@@ -215,7 +217,7 @@ func c18Corpus(rg *rand.Rand, quick bool) []c18Stream {
 }
 
 func runC18(c *fw.Ctx) {
-	c.Rule = "corpus of client byte streams, each sent on a fresh connection to a broker node that also serves two witness clients: valid packet sequences (4 CONNECT variants x 19 following packets, packets without CONNECT, a full session), truncation of three sequences at EVERY byte offset, type-nibble and flag-nibble sweeps and 11 remaining-length corruptions (too small/large, multi-byte, 5- and 6-byte, maximal) of 9 packet kinds after CONNECT, CONNECT remaining-length/flag/byte sweeps, QoS 3, empty topic lists, identifier 0, empty bodies, length prefixes beyond the packet, and seeded byte-level havoc (quick 600, thorough 20000). Every stream's hex is logged before it is sent. 24 connections that stay silent (or send half a CONNECT) are held open throughout and a new client connects at the end. Oracle: the broker process survives (a crash kills the child and is reported by the parent with the last streams), both witnesses are never disconnected, answer PINGREQ after every batch of streams and complete a tagged QoS 1 publish/receive round trip every 40 streams and at the end. distinct = stream bytes; non-trivial = stream differs from a valid sequence"
+	c.Rule = "corpus of client byte streams, each sent on a fresh connection to a broker node that also serves two witness clients: valid packet sequences (4 CONNECT variants x 19 following packets, packets without CONNECT, a full session), truncation of three sequences at EVERY byte offset, type-nibble and flag-nibble sweeps and 11 remaining-length corruptions (too small/large, multi-byte, 5- and 6-byte, maximal) of 9 packet kinds after CONNECT, CONNECT remaining-length/flag/byte sweeps, QoS 3, empty topic lists, identifier 0, empty bodies, length prefixes beyond the packet, and seeded byte-level havoc (quick 600, thorough 20000). Every stream's hex is logged before it is sent. 24 connections that stay silent (or send half a CONNECT) are held open throughout and a new client connects at the end. 44 well-behaved clients send valid packets of different types and lengths in three pieces each, concurrently, and must all be answered; acknowledgements are sent while their deadlines are being swept. Oracle: the broker process survives (a crash kills the child and is reported by the parent with the last streams), both witnesses are never disconnected, answer PINGREQ after every batch of streams and complete a tagged QoS 1 publish/receive round trip every 40 streams and at the end. distinct = stream bytes; non-trivial = stream differs from a valid sequence"
 	c.Assume("a client that stops reading is out of scope (the property is about bytes a client sends)")
 	rg := c.SubRng("c18", 0)
 	corpus := c18Corpus(rg, c.Quick())
@@ -295,6 +297,14 @@ func runC18(c *fw.Ctx) {
 	if !roundTrip() {
 		return
 	}
+	// meanwhile, on nodes of their own: acknowledgements arriving exactly while their deadlines are swept
+	// (a client decides when it acknowledges); a panic there ends this process like any other
+	var storms sync.WaitGroup
+	for i := 0; i < c.Pick(6, 12); i++ {
+		storms.Add(1)
+		go func(i int) { defer storms.Done(); c03AckStormN(c, 1800+i, c.Pick(14, 60)) }(i)
+	}
+	defer storms.Wait()
 	// connections that never send anything (or half a CONNECT) and stay open for the whole run
 	lingering := []*kit.Client{}
 	for i := 0; i < 24; i++ {
@@ -362,6 +372,68 @@ func runC18(c *fw.Ctx) {
 	if !pingWitness() || !roundTrip() {
 		return
 	}
+	// well-behaved clients whose packets arrive in pieces (fixed header, remaining length and body in
+	// separate writes with pauses), many at once, with different packet types and lengths: one client's
+	// bytes must never influence how another client's packet is framed
+	{
+		const nDrip = 44
+		var wg sync.WaitGroup
+		var dropped int64
+		var firstDrop atomic.Value
+		for i := 0; i < nDrip; i++ {
+			wg.Add(1)
+			go func(i int) {
+				defer wg.Done()
+				dc, err := n.MustConnect(kit.ConnectOpts{ClientID: fmt.Sprintf("drip-%d", i), KeepAlive: 3600, Clean: true})
+				if err != nil {
+					atomic.AddInt64(&dropped, 1)
+					firstDrop.Store(fmt.Sprintf("drip-%d could not connect: %v", i, err))
+					return
+				}
+				defer dc.Close()
+				for k := 0; k < 6; k++ {
+					var pkt []byte
+					wantType, wantID := kit.PUBACK, 10+k
+					switch (i + k) % 3 {
+					case 0:
+						pkt = kit.EncPublish(fmt.Sprintf("drip/%d", i), bytes.Repeat([]byte{byte('a' + i%20)}, 130+37*i+11*k), 1, false, false, wantID)
+					case 1:
+						pkt = kit.EncSubscribe(wantID, []string{fmt.Sprintf("drip/%d/%s", i, strings.Repeat("x", 120+3*i))}, []int{0})
+						wantType = kit.SUBACK
+					default:
+						pkt = kit.EncPingReq()
+						wantType, wantID = kit.PINGRESP, 0
+					}
+					from := dc.NumEvents()
+					cut := 1
+					if len(pkt) > 3 {
+						cut = 2
+					}
+					dc.Send(pkt[:1])
+					time.Sleep(time.Duration(1+(i+k)%4) * time.Millisecond)
+					dc.Send(pkt[1:cut])
+					time.Sleep(time.Duration(1+(i*7+k)%3) * time.Millisecond)
+					if cut < len(pkt) {
+						dc.Send(pkt[cut:])
+					}
+					if _, _, err := dc.WaitFor(from, 30*time.Second, func(e kit.Event) bool {
+						return e.Pkt.Type == wantType && (wantID == 0 || e.Pkt.ID == wantID)
+					}); err != nil {
+						atomic.AddInt64(&dropped, 1)
+						firstDrop.Store(fmt.Sprintf("drip-%d: packet %d (%d bytes, sent in three pieces) was not answered with %s: %v (connection closed: %v)", i, k, len(pkt), kit.TypeName(wantType), err, dc.Closed()))
+						return
+					}
+				}
+				c.Observe("piecewise_clients_served", 1)
+			}(i)
+		}
+		wg.Wait()
+		if dropped > 0 {
+			c.Violation("valid-client-dropped:piecewise-packets", fmt.Sprintf("%d of %d well-behaved clients that sent valid packets in pieces, concurrently, were not served; e.g. %v", dropped, nDrip, firstDrop.Load()), map[string]interface{}{"dropped": dropped})
+			return
+		}
+	}
+	storms.Wait()
 	// a client that arrives after all this is still admitted and served
 	late, code, err := n.Connect(kit.ConnectOpts{ClientID: "late-witness", KeepAlive: 600, Clean: true})
 	if err != nil || code != 0 {
